@@ -1117,6 +1117,17 @@ val run_cm_rows : mode -> n list -> n list
 
 val run_check_intermediate_rfc : n list -> n list
 
+val pm_of_list : n list list -> n list PositiveMap.t
+
+val pm_get : nat -> n list PositiveMap.t -> n -> n list
+
+val pm_xor :
+  nat -> n list PositiveMap.t -> n -> n list -> n list PositiveMap.t
+
+val chunks_lin : nat -> nat -> n list -> n list list
+
+val run_check_rows_rfc : n list -> n list
+
 type bvec = n list * n
 
 val bv_padding : n -> n
